@@ -26,3 +26,16 @@ Theorem C07_grouped_concat_is_flat :
     flat_obs (decode_frames ig ak po fs st) = rows_obs ig ak po (flat_map f_rows fs) st.
 Proof. exact flat_is_rows. Qed.
 Print Assumptions C07_grouped_concat_is_flat.
+
+(* Writing side: a grouped write through one shared TripleStream with a GraphsFrameFlow -- every
+   sink (input graph) that ends without a raise comes out as exactly one frame carrying all the
+   rows that sink appended (or no frame when it appended none), in sink order. *)
+From PJ.Model Require Import Api.
+From PJ.Proofs Require Import GroupedProofs.
+Theorem C07_grouped_write_one_frame_per_sink :
+  forall (sinks : list sdata) (s s' : stream) (evs : list tev),
+    st_class s = TripleStream -> fl_kind (st_flow s) = FGraphs ->
+    grouped_frames sinks s = (s', evs) -> raised evs = None ->
+    emitted evs = flat_map one_frame (per_sink_rows sinks s).
+Proof. exact grouped_write_one_frame_per_sink. Qed.
+Print Assumptions C07_grouped_write_one_frame_per_sink.
